@@ -58,25 +58,31 @@ func sortKeys[K comparable](keys []K) {
 		// Pointer keys are rendered through what they point at; two keys that
 		// render alike keep the runtime's (unrepeatable) relative order, which
 		// the run notes so that the evidence can say how often that happened.
+		// Pointers to objects whose creation the run has seen (simrt.Born, placed by
+		// simgen at every &T{...}) are ordered by birth, which is part of the
+		// replayable schedule and tells apart objects that look alike. Only keys
+		// without a birth number are rendered - with the race detector switched
+		// off for the duration: the rendering reads the objects' fields without
+		// the locks their owners use, which is no access of the code under test.
 		canon := make([]string, len(keys))
+		s := simTask()
 		for i := range keys {
-			canon[i] = canonical(reflect.ValueOf(&keys[i]).Elem(), 3)
-		}
-		// pointers to objects whose creation the run has seen (simrt.Born, placed
-		// by simgen at every &T{...}) are ordered by birth, which is part of the
-		// replayable schedule and tells apart objects that look alike
-		if s := simTask(); s != nil {
-			for i := range keys {
-				v := reflect.ValueOf(&keys[i]).Elem()
-				if v.Kind() == reflect.Interface && !v.IsNil() {
-					v = v.Elem()
+			v := reflect.ValueOf(&keys[i]).Elem()
+			if s != nil {
+				pv := v
+				if pv.Kind() == reflect.Interface && !pv.IsNil() {
+					pv = pv.Elem()
 				}
-				if v.Kind() == reflect.Ptr && !v.IsNil() {
-					if b := s.birthOf(v.Pointer()); b > 0 {
+				if pv.Kind() == reflect.Ptr && !pv.IsNil() {
+					if b := s.birthOf(pv.Pointer()); b > 0 {
 						canon[i] = fmt.Sprintf("born%012d", b)
+						continue
 					}
 				}
 			}
+			raceDisable()
+			canon[i] = canonical(v, 3)
+			raceEnable()
 		}
 		idx := make([]int, len(keys))
 		for i := range idx {
